@@ -72,7 +72,7 @@ def run_suite(ctx, which: str) -> None:
     try:
         os.chdir(env.REPO)
         with redirect_stdout(out), redirect_stderr(out):
-            rc = pytest.main(["-q", "-p", "no:cacheprovider", "-x", os.path.join(env.REPO, "tests")])
+            rc = pytest.main(["-q", "-p", "no:cacheprovider", "-p", "no:benchmark", "-x", os.path.join(env.REPO, "tests")])
     finally:
         os.chdir(cwd)
         for u in undo:
